@@ -698,7 +698,7 @@ def run(tier, replay=None):
     if replay:
         print(json.dumps(json.load(open(replay)), indent=1)[:3000])
         return 0
-    proof = common.prove(report, "C06", ["alloc", "dispatcher", "handover"], extra_targets=["Run/C06Run.vo"])
+    proof = common.prove(report, "C06", ["alloc", "dispatcher", "handover", "request"], extra_targets=["Run/C06Run.vo"])
     ok, log = common.coq_make(["Run/C06Run.vo"])
     if not ok:
         report.violation({"kind": "broken-obligation", "obligation": "Run/C06Run.vo does not build against the regenerated allocator", "detail": log[-1500:], "also": proof.get("broken")}, False, tag="modelbuild")
